@@ -21,6 +21,7 @@ RULE = (
     "error kinds) through each decorated object, a function behind a scope provider whose sizes are numpy integers, and the decoration of six objects whose hints the enabled decorators refuse (general Union, non-tensor base, `self` provider on a plain function, no dltype hint). Expectation: identity iff the effective `enabled` is false (Lean decision table "
     "Properties/C13.lean), verdict vectors equal to the baseline configuration's. non-trivial = every (configuration, decorator, enabled) triple"
 )
+RULE += " Also: staticmethod / classmethod objects and hints with foreign Annotated metadata in the odd-decoration family; first checks of fresh multi-axis annotations under every configuration."
 TRUSTED_EXTRA = ["environment parsing is pydantic-settings' (observed in subprocesses, not modelled)"]
 
 CODE = r'''
